@@ -115,6 +115,14 @@ pub async fn backup(
 
     // Create the new band only after finding the basis band!
     let band = Band::create(archive).await?;
+    // A gc that started after the check above takes its lock before it decides which
+    // blocks are garbage, and it only looks for new bands once more just before it starts
+    // deleting. So now that our band exists, look at the lock again before listing the
+    // blocks we may deduplicate against: either the gc sees this band and stops, or we
+    // see its lock and stop.
+    if gc_lock::GarbageCollectionLock::is_locked_in_listing(archive).await? {
+        return Err(Error::GarbageCollectionLockHeld);
+    }
     let index_writer = band.index_writer(monitor.clone());
     let block_dir = archive.block_dir().await?;
     let mut writer = BackupWriter {
